@@ -113,8 +113,9 @@ def file_obstacle(draw, oid, prof, lim, around=None):
     if role == "environment":
         return {"role": role, "id": oid, "type": draw(st.sampled_from(prof["types_environment"])),
                 "shape": draw(gg.any_shape(lo=lo))}
+    t0 = draw(prof["t0"]) if prof.get("t0") is not None else 0
     if role == "phantom":
-        return {"role": role, "id": oid, "pred": {"k": "set", "t0": 1, "occ": draw(occupancies(prof, 1))}}
+        return {"role": role, "id": oid, "pred": {"k": "set", "t0": t0 + 1, "occ": draw(occupancies(prof, t0 + 1))}}
     optional = ["velocity", "acceleration", "yaw_rate", "slip_angle"]
     fields = ["position", "orientation"] + [f for f in optional if draw(st.booleans())]
     pos = None
@@ -123,19 +124,21 @@ def file_obstacle(draw, oid, prof, lim, around=None):
     shape = draw(gg.any_shape(lo=lo) if role == "static" else gg.any_shape(centered=True, lo=lo, oriented=False))
     # shape group x uncertain state is rejected by the library with an explicit ValueError: not in the domain
     group = shape["k"] == "group"
-    init = draw(file_state("InitialState", 0, fields, lim, pos=pos, uncertain=not group))
+    init = draw(file_state("InitialState", t0, fields, lim, pos=pos, uncertain=not group))
     if role == "static":
         ob = {"role": role, "id": oid, "type": draw(st.sampled_from(prof["types_static"])),
               "shape": shape, "init": init}
         if prof.get("static_signals") and draw(st.booleans()):
-            ob["signal0"] = draw(gs.signal_recipe(0, prof))
+            ob["signal0"] = draw(gs.signal_recipe(t0, prof))
         if prof.get("static_signals") and draw(st.booleans()):
-            ob["signals"] = [draw(gs.signal_recipe(1 + k, prof)) for k in range(draw(st.integers(1, 3)))]
+            ob["signals"] = [draw(gs.signal_recipe(t0 + 1 + k, prof)) for k in range(draw(st.integers(1, 3)))]
         return ob
     ob = {"role": role, "id": oid, "type": draw(st.sampled_from(prof["types_dynamic"])),
           "shape": shape, "init": init}
     if draw(st.booleans()):
-        ob["signal0"] = draw(gs.signal_recipe(0, prof))
+        ob["signal0"] = draw(gs.signal_recipe(t0, prof))
+    if prof.get("allow_no_prediction") and draw(st.integers(0, 4)) == 0:
+        return ob
     if draw(st.integers(0, 3)) > 0:
         n = draw(st.integers(1, prof.get("max_traj", 6)))
         kind = draw(st.sampled_from(prof["traj_classes"] + ["Custom"]))
@@ -143,7 +146,7 @@ def file_obstacle(draw, oid, prof, lim, around=None):
             extra = draw(st.lists(st.sampled_from(prof["custom_extra"]), max_size=4, unique=True))
             flds = ["position", "orientation"] + extra
             unc = draw(st.booleans()) and not group
-            states = [draw(file_state("CustomState", 1 + k, flds, lim, uncertain=False)) for k in range(n)]
+            states = [draw(file_state("CustomState", t0 + 1 + k, flds, lim, uncertain=False)) for k in range(n)]
             if unc:
                 # same kind of value for a field in all states is not required; make some fields interval-valued
                 f = draw(st.sampled_from(flds))
@@ -153,19 +156,19 @@ def file_obstacle(draw, oid, prof, lim, around=None):
             unc_field = None if group else draw(st.one_of(st.none(), st.sampled_from(gg.STATE_FIELDS[kind])))
             states = []
             for k in range(n):
-                s = draw(gg.exact_state(kind, 1 + k, lim=lim))
+                s = draw(gg.exact_state(kind, t0 + 1 + k, lim=lim))
                 if unc_field is not None:
                     s["a"][unc_field] = draw(uncertain_value(unc_field))
                 states.append(s)
-        ob["pred"] = {"k": "traj", "traj": {"t0": 1, "states": states}}
+        ob["pred"] = {"k": "traj", "traj": {"t0": t0 + 1, "states": states}}
         if prof.get("pred_shape") and draw(st.integers(0, 2)) == 0:
             # the prediction may carry its own shape (e.g. inflated by a safety margin); protobuf has a field for it
             ob["pred"]["shape"] = draw(gg.simple_shape(centered=True, lo=lo, oriented=False))
     else:
-        ob["pred"] = {"k": "set", "t0": 1, "occ": draw(occupancies(prof, 1))}
+        ob["pred"] = {"k": "set", "t0": t0 + 1, "occ": draw(occupancies(prof, t0 + 1))}
     if draw(st.booleans()):
         m = draw(st.integers(1, 4))
-        ob["signals"] = [draw(gs.signal_recipe(1 + k, prof)) for k in range(m)]
+        ob["signals"] = [draw(gs.signal_recipe(t0 + 1 + k, prof)) for k in range(m)]
     return ob
 
 
@@ -211,7 +214,8 @@ def file_planning_problem(draw, pid, prof, lim, net):
     fields = ["position", "orientation", "velocity", "yaw_rate", "slip_angle"]
     if draw(st.booleans()):
         fields.append("acceleration")
-    init = draw(gg.exact_state("InitialState", 0, fields=fields, lim=lim))
+    init = draw(gg.exact_state("InitialState", draw(prof["t0"]) if prof.get("t0") is not None else 0, fields=fields,
+                               lim=lim))
     lanelet_ids = [l["id"] for l in net["lanelets"]]
     states, lan = [], {}
     for i in range(draw(st.integers(1, 3))):
